@@ -647,8 +647,14 @@ class SStr(object):
     def __bool__(self):
         return bool(mk_bool(z3.Length(self.t) > 0))
 
-    def encode(self, enc='utf-8'):
-        return SBytes([Blob(('utf8', self.t), utf8_len(self.t, engine().int_mode), decoded=self)])
+    def encode(self, enc='utf-8', errors='strict'):
+        if str(enc).lower().replace('_', '-') in ('utf-8', 'utf8'):
+            return SBytes([Blob(('utf8', self.t), utf8_len(self.t, engine().int_mode), decoded=self)])
+        # any other codec: a different, unrelated byte string (and it may fail on unencodable characters)
+        E = engine()
+        if E.decide(E.new_bool('encode.%s.fails' % enc).t):
+            raise UnicodeEncodeError(str(enc), '', 0, 1, 'character not encodable (model)')
+        return SBytes([Blob((str(enc).lower(), self.t), E.new_int('enc.%s.len' % enc, 0, MAX_LEN))])
 
     def __repr__(self):
         return 'SStr(%s)' % (self.t,)
